@@ -150,7 +150,7 @@ def nonnumeric_text(r, n=None):
 
 
 def gen_dt(r):
-    us = r.choice([0, 0, 499, 500, 1000, 123456, 999499])
+    us = r.choice([0, 0, 499, 500, 1000, 123456, 999499, 999500, 999999])   # (the last two: the millisecond field saturates at 999, the second is NOT wrapped)
     tz = r.choice([None, 0, 0, 60, -300, 330, 840, -720])
     y = r.choice([1900, 1901, 1970, 1999, 2000, 2024, 2100, 2155]) if tz in (None, 0) else r.choice([1950, 2000, 2024, 2100])
     c = r.random()
